@@ -9,7 +9,7 @@ for d in seeded/${1:-}*/; do
   if [ -z "$p" ]; then echo "$n: documented as not caught (outside the simulator's model), skipped"; continue; fi
   if [ -n "$(git -C /repo status --porcelain)" ]; then echo "/repo dirty"; exit 2; fi
   git -C /repo apply /verif/$d/patch.diff || { echo "$n: patch does not apply"; fail=1; continue; }
-  ./bin/check $p quick > /tmp/seeded_regress.out 2>&1; rc=$?
+  VERIF_NO_EVIDENCE=1 ./bin/check $p quick > /tmp/seeded_regress.out 2>&1; rc=$?
   git -C /repo checkout -- .
   echo "$n: $p exit $rc $(grep -m1 '^violation:' /tmp/seeded_regress.out | cut -c1-140)"
   [ $rc -eq 1 ] || fail=1
